@@ -65,14 +65,27 @@ def make_index(tbl, n):
     raise ValueError(kind)
 
 
+def axis_names(tbl):
+    """Column / variable names of the axes (streams accept non-default names)."""
+    nm = {"time": "time", "z": "z", "lat": "lat", "lon": "lon"}
+    nm.update(tbl.get("names") or {})
+    return nm
+
+
+def stream_kwargs(tbl):
+    nm = axis_names(tbl)
+    return {k: v for k, v in nm.items() if (tbl.get("names") or {}).get(k)}
+
+
 def make_df(tbl):
     a = table_arrays(tbl)
+    nm = axis_names(tbl)
     data = OrderedDict()
     if a["time"] is not None:
-        data["time"] = a["time"]
+        data[nm["time"]] = a["time"]
     for ax in ("z", "lat", "lon"):
         if a[ax] is not None:
-            data[ax] = a[ax]
+            data[nm[ax]] = a[ax]
     for k, v in a["cols"].items():
         data[k] = v
     df = pd.DataFrame(data)
@@ -84,17 +97,19 @@ def make_df(tbl):
 
 def make_xr(tbl):
     a = table_arrays(tbl)
+    nm = axis_names(tbl)
+    tn = nm["time"]
     dv = OrderedDict()
     for k, v in a["cols"].items():
-        dv[k] = ("time", v.copy())
+        dv[k] = (tn, v.copy())
     for ax in ("z", "lat", "lon"):
         if a[ax] is not None:
-            dv[ax] = ("time", a[ax].copy())
+            dv[nm[ax]] = (tn, a[ax].copy())
     if tbl.get("xr_time", "coord") == "coord":
-        return xr.Dataset(dv, coords={"time": a["time"].copy()})
+        return xr.Dataset(dv, coords={tn: a["time"].copy()})
     # time is a plain data variable on an anonymous dimension
     dv2 = OrderedDict((k, ("obs", v[1])) for k, v in dv.items())
-    dv2["time"] = ("obs", a["time"].copy())
+    dv2[tn] = ("obs", a["time"].copy())
     return xr.Dataset(dv2)
 
 
@@ -105,7 +120,7 @@ def write_nc(tbl):
     ds = make_xr(tbl)
     _NC_COUNTER["n"] += 1
     path = os.path.join(seams.scratch_dir(), f"table{_NC_COUNTER['n']}.nc")
-    enc = {"time": {"units": "seconds since 1970-01-01 00:00:00", "dtype": "float64", "calendar": "proleptic_gregorian"}}
+    enc = {axis_names(tbl)["time"]: {"units": "seconds since 1970-01-01 00:00:00", "dtype": "float64", "calendar": "proleptic_gregorian"}}
     ds.to_netcdf(path, engine="scipy", format="NETCDF3_64BIT", encoding=enc)
     ds.close()
     return path
@@ -169,6 +184,8 @@ def config_document(cfg, text=False):
             if w.get("ending") is not None:
                 wd["ending"] = window_value(w["ending"], form)
             d["window"] = wd
+        if c.get("region"):
+            d["region"] = json.loads(json.dumps(c["region"]))
         d["streams"] = nested_streams(c["entries"])
         ctxs.append(d)
     if cfg.get("layout", "contexts") == "streams" and len(ctxs) == 1:
@@ -326,8 +343,9 @@ def make_stream(frontend, tbl):
     from ioos_qc.streams import NetcdfStream, NumpyStream, PandasStream, XarrayStream
 
     a = table_arrays(tbl)
+    kw = stream_kwargs(tbl)
     if frontend == "pandas":
-        return PandasStream(make_df(tbl)), None
+        return PandasStream(make_df(tbl), **kw), None
     if frontend == "numpy":
         inp = OrderedDict((k, v.copy()) for k, v in a["cols"].items())
         if tbl.get("numpy_single") and len(inp) == 1:
@@ -344,14 +362,14 @@ def make_stream(frontend, tbl):
         )
     if frontend == "netcdf_obj":
         ds = make_xr(tbl)
-        return NetcdfStream(ds), ds.close
+        return NetcdfStream(ds, **kw), ds.close
     if frontend == "xarray_obj":
         ds = make_xr(tbl)
-        return XarrayStream(ds), ds.close
+        return XarrayStream(ds, **kw), ds.close
     if frontend == "netcdf_path":
-        return NetcdfStream(write_nc(tbl)), None
+        return NetcdfStream(write_nc(tbl), **kw), None
     if frontend == "xarray_path":
-        return XarrayStream(write_nc(tbl)), None
+        return XarrayStream(write_nc(tbl), **kw), None
     raise ValueError(frontend)
 
 
